@@ -183,7 +183,10 @@ def run_one(scen: Choices, sched: Choices, cls, cfg):
     fault_step = None
     if cfg.get("fault_mode"):
         fault = gen.gen_fault(scen)
-        fault_step = scen.draw(nsteps)
+        # a fault with nothing in flight tests nothing: prefer steps that go through the pool
+        cand = [i for i, s_ in enumerate(steps) if s_.get("op", {}).get("op") in ops.BASIC + ops.COMPOSITE] or list(range(nsteps))
+        fault_step = cand[scen.draw(len(cand))]
+        fault["k"] = min(fault["k"], 3)
 
     rec = {"violations": [], "probes": [], "faults": [], "interleavings": [], "ticks": 0, "nontrivial": False, "n_pools": 0}
     probes = set()
